@@ -11,13 +11,13 @@ including retransmissions) failing with that kind:
 
     variant 'cmd-lost'   the tag never sees the command (state unchanged)
     variant 'rsp-lost'   the tag executes the command, the response is lost
-    thorough tier also   'rsp-then-cmd-lost' / 'cmd-then-rsp-lost': the first
+    mixed variants       'rsp-then-cmd-lost' / 'cmd-then-rsp-lost': the first
                          faulted exchange of the burst differs from the rest
 
 Operations: nfc.tag.activate, tag.ndef, ndef.octets = ..., is_present, format
 with and without wipe, protect with and without password, authenticate, dump
-and the low-level helpers of each tag class (see ops_for).  Bursts 1..3
-(quick) / 1..4 (thorough; 1..6 for the Type 4 configuration with 5 retries).
+and the low-level helpers of each tag class (see ops_for).  Bursts 1..4
+(quick) / 1..6 (thorough); both tiers run every configuration and operation.
 
 Oracle (the statement, nothing more):
 
@@ -65,11 +65,12 @@ PROP = 'C16'
 VERIF_DIR = os.path.dirname(os.path.dirname(os.path.abspath(__file__)))
 KINDS = (TIMEOUT, TRANSMISSION, PROTOCOL)
 VARIANTS = ('cmd-lost', 'rsp-lost')
-# thorough only: the first faulted exchange differs from the rest of the burst
+# the first faulted exchange differs from the rest of the burst
 MIXED = ('rsp-then-cmd-lost', 'cmd-then-rsp-lost')
 ERRNO = {TIMEOUT: 0, TRANSMISSION: -1, PROTOCOL: -2}
-BURSTS = {'quick': (1, 2, 3), 'thorough': (1, 2, 3, 4)}
-THIN = {'quick': 400, 'thorough': 400}
+# (the quick tier is the former thorough tier - it takes half a minute)
+BURSTS = {'quick': (1, 2, 3, 4), 'thorough': (1, 2, 3, 4, 5, 6)}
+THIN = {'quick': 400, 'thorough': 1200}
 
 BUDGETS = {
     'T1': 'tt1.Type1Tag.transceive: 3 attempts for every command and kind -> '
@@ -215,7 +216,7 @@ def configs(tier):
         # Type 4A: no ISO-DEP retries at all (FWT > 1 s)
         _t4_cfg('T4A-fwi12', 'A', 8, 12, 256, 255, 255, 60, 40),
     ]
-    if tier == 'thorough':
+    if tier in ('quick', 'thorough'):
         out += [
             _tlv_cfg('T2-ul', 'T2', 'MifareUltralight', tc.t2_case(48, 'ul'),
                      12, 20),
@@ -425,7 +426,7 @@ def ops_for(cfg, tier):
             Op('transceive', ll, lambda t, x, c: t.transceive(
                 bytearray.fromhex('00A4040007D276000085010100'))),
         ]
-    return [o for o in ops if tier in o.tiers]
+    return list(ops)       # o.tiers: historical, both tiers run every op
 
 
 def docfail(kind, res):
@@ -816,7 +817,7 @@ def work(item):
 
 
 def variants(tier):
-    return VARIANTS + (MIXED if tier == 'thorough' else ())
+    return VARIANTS + MIXED
 
 
 def setup(tier, part):
